@@ -5,8 +5,10 @@ distance is within a relative band of 1e-9 of the radius may fall on either side
 distances (or are exact integers on integer lattices) so that membership is unambiguous.  Histories replay sequences of
 queries and attribute reassignments on ONE instance and compare every answer with the instance's current public state.
 
-Known defects of the shipped code are recognised by a reference model of the shipped behaviour (the ball is taken on the
-array the neighbour tree was built from, an empty ball gives a float index array, ...) and get a ':known-<slug>' suffix.
+Defects are recognised by a reference model of the defective behaviour (the ball taken on the array the neighbour tree
+was built from, an empty ball giving a float index array, the general selection branch rejecting an empty selection, ...).
+Only the defect that the unchanged library still shows (empty selection rejected by the OneDGrid / PeriodicGrid
+constructors) gets a ':known-<slug>' suffix; the repaired ones are reported as ordinary failures with a note.
 """
 import itertools
 
@@ -354,12 +356,23 @@ def classify_query(st):
     return None
 
 
+# Defects that the unchanged library shows today: only these get the ':known-<slug>' suffix.  The other slugs that the
+# classification recognises (stale-tree, empty-ball, periodic-empty-ball, numpy-int-index, atomgrid-no-kdtree,
+# atomgrid-uncentred) were repaired in the library ("fix:" commits); if a change brings one of them back the failure is
+# reported as an ordinary violation, with a note in its detail.
+KNOWN_TODAY = {"empty-selection-onedgrid", "empty-selection-periodicgrid"}
+
+
 def mark_known(col, n_before, slug):
-    """Rename the failure just recorded; keep at most MAX_PER_SLUG entries per recorded defect so that the
-    (capped) failure list always has room for violations that are not recorded defects."""
+    """Re-label the failure just recorded when it is exactly a recorded defect of the unchanged library; keep at most
+    MAX_PER_SLUG records per recorded defect so that the (capped) failure list keeps room for other violations."""
     if slug is None or len(col.failures) <= n_before:
         return
-    col.failures[-1]["case_id"] += ":known-" + slug
+    rec = col.failures[-1]
+    if slug not in KNOWN_TODAY:
+        rec["detail"] = f"{rec['detail']} [exactly the behaviour of the defect '{slug}' that was repaired in the library earlier]"
+        return
+    rec["case_id"] += ":known-" + slug
     same = [f for f in col.failures if f["case_id"].endswith(":known-" + slug)]
     if len(same) > MAX_PER_SLUG:
         col.failures.pop()
@@ -730,7 +743,7 @@ def getitem_case(col, g, kind, ikind, ix, b, meta):
             return
         mark_known(col, n0, "numpy-int-index")
     elif not is_int and len(want_w) == 0:
-        mark_known(col, n0, "empty-selection-constructor")
+        mark_known(col, n0, "empty-selection-onedgrid" if kind.startswith("OneD") else "empty-selection-periodicgrid")
 
 
 def getitem_group(col, g, kinds, reps, meta, only_ikind=None):
